@@ -285,6 +285,26 @@ def run(tier, replay=None):
                                       {"cache": "on" if thr == 0 else "off", "chain": c, "step": s, "genotype": gt[c, s].tolist(),
                                        "carried": float(lt[c, s]), "recomputed": fresh, "temperatures": temps}, "C09/assemble/trace-llk")
                         break
+        # one assembler object fitted to a second sample (cache on): its trace carries that sample's likelihoods and is the
+        # trace of a new object
+        truth2 = G.gen_genotype(r, ploidy, n_alleles, dup=0.3)
+        reads2, counts2 = G.gen_reads(r, n_alleles, r.randint(3, 8), haps=truth2, gap=0.3, style="encoded")
+        mk = lambda: DenovoMCMC(ploidy=ploidy, n_alleles=n_alleles, steps=150, chains=n_chains, fix_homozygous=2.0,  # noqa: E731
+                                temperatures=temps, random_seed=17 + it, llk_cache_threshold=0, inbreeding=0.05)
+        m_ = mk()
+        m_.fit(reads, read_counts=counts)
+        again = m_.fit(reads2, read_counts=counts2)
+        alone = mk().fit(reads2, read_counts=counts2)
+        chk.count("fit:one-object-fitted-to-two-samples")
+        bad = next(((c, s_) for c in range(again.genotypes.shape[0]) for s_ in range(again.genotypes.shape[1])
+                    if not C.close_log(float(again.llks[c, s_]), float(log_likelihood(reads2, again.genotypes[c, s_], read_counts=counts2)))), None)
+        if bad is not None:
+            chk.violation("second fit of one DenovoMCMC object: a likelihood in the trace is not the likelihood of that genotype for the "
+                          "reads being fitted", {"chain": bad[0], "step": bad[1], "genotype": again.genotypes[bad].tolist(),
+                                                 "carried": float(again.llks[bad]), "temperatures": temps}, "C09/assemble/trace-llk")
+        if not np.array_equal(again.genotypes, alone.genotypes):
+            chk.violation("the second fit of one DenovoMCMC object differs from the fit of a new object (same reads and seed)",
+                          {"ploidy": ploidy, "n_alleles": n_alleles, "temperatures": temps}, "C09/assemble/cache-trajectory")
         chk.count("fit:jitted")
         chk.case(("fit", it, ploidy, tuple(n_alleles), temps), True)
         if not np.array_equal(traces[-1].genotypes, traces[0].genotypes):
